@@ -337,6 +337,17 @@ func (c *wsCtx) funcWrites(ws *WriteSet, f *ssa.Function, call *ssa.CallCommon) 
 			if ct.HasAssign {
 				// assigns clauses name parameters of the callee: *p, p.f, *p.f
 				for _, a := range ct.Assigns {
+					if ce, ok := a.(*ast.CallExpr); ok && len(ce.Args) == 1 {
+						// reach(param): whatever the function value / pointer argument can reach
+						if id, ok := ce.Args[0].(*ast.Ident); ok {
+							for i, prm := range f.Params {
+								if prm.Name() == id.Name && i < len(call.Args) {
+									c.reachWrites(ws, call.Args[i].Type())
+								}
+							}
+						}
+						continue
+					}
 					pn := assignRootName(a)
 					hit := false
 					for i, prm := range f.Params {
